@@ -207,26 +207,29 @@ theorem C12_cex_smallint_uint16 :
 
 /-! ## date and timestamp -/
 
-/-- a millisecond count bound to a date column is written as 2^31 + FLOOR(days since the epoch) — for every int64
-    whose day number is in range, before 1970 as well (repair of KF-C12-4: daysSinceEpoch).
-    What remains excluded is the OPEN finding KF-C12-5 (a day outside [−2^31, 2^31) is not refused, `C12_cex_date_range`). -/
-theorem C12_date_conforms (p : Nat) (ts : Int)
-    (hrange : fitsU 4 (ts / 86400000 + 2147483648) = true) :
-    marshalScalar .date (.int .int64 false ts) = .ok (specEnc p .date (.int (ts / 86400000))) := by
-  have h := encDateMillis_spec ts hrange
-  simp [marshalScalar, specEnc, hrange, h]
+/-- a millisecond count bound to a date column is written as 2^31 + FLOOR(days since the epoch) — for EVERY int64,
+    before 1970 as well (repair of KF-C12-4: daysSinceEpoch) — and refused when that day number does not fit the 4
+    bytes of a date (repair of KF-C12-5: encDate; the former hypothesis `hrange` is gone): exactly the specification -/
+theorem C12_date_conforms (p : Nat) (ts : Int) :
+    marshalScalar .date (.int .int64 false ts) = optM (specEnc p .date (.int (ts / 86400000))) := by
+  show marshalDateMillis ts = _
+  unfold marshalDateMillis
+  rw [C12Scalar.daysSinceEpoch_floor]
+  by_cases hr : fitsU 4 (ts / 86400000 + 2147483648) = true
+  · simp [specEnc, hr, optM, encDateMillis_spec ts hr]
+  · simp [specEnc, hr, optM]
 
-/-- the same for a time.Time (not the zero time, milliseconds representable in int64 — open finding KF-C12-9 —, day in
-    range): the day that CONTAINS the instant -/
+/-- the same for a time.Time (not the zero time, milliseconds representable in int64 — open finding KF-C12-9): the day
+    that CONTAINS the instant, or an error when it is outside the range of a date -/
 theorem C12_date_time_conforms (p : Nat) (sec nsec : Int) (hn : 0 ≤ nsec ∧ nsec < 1000000000)
     (hz : timeIsZero sec nsec = false)
-    (h1 : fitsS 8 (sec * 1000) = true) (h2 : fitsS 8 (exactMillis sec nsec) = true)
-    (hrange : fitsU 4 (sec / 86400 + 2147483648) = true) :
-    marshalScalar .date (.time sec nsec) = .ok (specEnc p .date (.int (sec / 86400))) := by
+    (h1 : fitsS 8 (sec * 1000) = true) (h2 : fitsS 8 (exactMillis sec nsec) = true) :
+    marshalScalar .date (.time sec nsec) = optM (specEnc p .date (.int (sec / 86400))) := by
   have hd := day_of_millis sec nsec hn
-  have h := encDateMillis_spec (exactMillis sec nsec) (by rw [hd]; exact hrange)
+  have h := C12_date_conforms p (exactMillis sec nsec)
   rw [hd] at h
-  simp [marshalScalar, specEnc, hz, hrange, timeMillis_exact sec nsec h1 h2, h]
+  rw [← h]
+  simp [marshalScalar, hz, timeMillis_exact sec nsec h1 h2]
 
 /-- the regression input of KF-C12-4, kernel-checked, = `spec 4 date t -43200 0` (1969-12-31T12:00:00Z): day 2^31 − 1 -/
 theorem C12_date_floor_witness :
@@ -234,22 +237,28 @@ theorem C12_date_floor_witness :
     marshalScalar .date (.int .int64 false (-1)) = .ok (some [127, 255, 255, 255]) ∧
     specEnc 4 .date (.int ((-43200 : Int) / 86400)) = some [127, 255, 255, 255] := by
   refine ⟨?_, ?_, by decide⟩
-  · have : encDateMillis (timeMillis (-43200) 0) = [127, 255, 255, 255] := by decide
-    simp [marshalScalar, timeIsZero, zeroTimeSec, this]
-  · have : encDateMillis (-1) = [127, 255, 255, 255] := by decide
-    simp [marshalScalar, this]
+  · have e : encDateMillis (timeMillis (-43200) 0) = [127, 255, 255, 255] := by decide
+    have f : fitsU 4 (daysSinceEpoch (timeMillis (-43200) 0) + 2147483648) = true := by decide
+    simp [marshalScalar, timeIsZero, zeroTimeSec, marshalDateMillis, e, f]
+  · have e : encDateMillis (-1) = [127, 255, 255, 255] := by decide
+    have f : fitsU 4 (daysSinceEpoch (-1) + 2147483648) = true := by decide
+    simp [marshalScalar, marshalDateMillis, e, f]
 
 /-- the OLD computation (truncating division, before the repair) gave the NEXT day: regression of the former counterexample -/
 example : encInt (toS 32 (goDiv (-43200000) millisInADay + 2147483648)) = [128, 0, 0, 0] := by decide
 
-/-- KF-C12-5 (open): a day number outside the range is not refused, int32(x) wraps: day 2^31 is written as day −2^31.
-    = replay input `enc 4 date i int64 185542587187200000` -/
+/-- KF-C12-5 (repaired), regression of the former counterexample: day 2^31 used to be written as day −2^31 (00 00 00 00);
+    now it is an error, like the last representable day + 1 ms … and the last day itself is still written.
+    = replay inputs `enc 4 date i int64 185542587187200000`, `spec 4 date i int64 185542587187199999` -/
 theorem C12_cex_date_range :
-    marshalScalar .date (.int .int64 false 185542587187200000) = .ok (some [0, 0, 0, 0]) ∧
-    specEnc 4 .date (.int ((185542587187200000 : Int) / 86400000)) = none := by
-  refine ⟨?_, by decide⟩
-  have : encDateMillis 185542587187200000 = [0, 0, 0, 0] := by decide
-  simp [marshalScalar, this]
+    marshalScalar .date (.int .int64 false 185542587187200000) = .err ∧
+    specEnc 4 .date (.int ((185542587187200000 : Int) / 86400000)) = none ∧
+    marshalScalar .date (.int .int64 false 185542587187199999) = .ok (some [255, 255, 255, 255]) := by
+  refine ⟨?_, by decide, ?_⟩
+  · have : specEnc 4 .date (.int ((185542587187200000 : Int) / 86400000)) = none := by decide
+    rw [C12_date_conforms 4, this]; rfl
+  · have : specEnc 4 .date (.int ((185542587187199999 : Int) / 86400000)) = some [255, 255, 255, 255] := by decide
+    rw [C12_date_conforms 4, this]; rfl
 
 /-- timestamp: milliseconds since the epoch (floor), 8 bytes — for every non-zero time.Time that does not overflow -/
 theorem C12_timestamp_conforms_partial (p : Nat) (sec nsec : Int)
